@@ -307,7 +307,14 @@ async fn process_bufs(
             }
         };
         let cc_fut = async { compressor_client.data(bufs_arc).await };
-        let (_, _) = tokio::try_join!(lsc_fut, cc_fut)?;
+        // Streaming is best-effort: a listener that went away must neither fail the task
+        // nor keep the logs from being stored, so the two writes are not short-circuited.
+        let (lsc_res, cc_res) = tokio::join!(lsc_fut, cc_fut);
+        if let Err(e) = lsc_res {
+            debug!(error = e.to_string(), "Log streaming disabled");
+            *log_stream_client = None;
+        }
+        cc_res?;
     }
     if should_end {
         compressor_client.end().await?;
